@@ -28,7 +28,18 @@ type suiteInfo struct {
 	h     crypto.Hash
 	order *big.Int
 	le    bool // scalars little-endian (ristretto255)
-	cost  int  // relative cost divisor for case counts
+	cost  int  // relative cost of one case (informative; P-521 dominates)
+}
+
+// cases picks the per-suite case count: quick counts are budgeted per suite so that the
+// whole quick tier stays below ~60 s; the thorough tier runs `mult` times as many per shard.
+func (si suiteInfo) cases(quick [4]int, mult int) int {
+	for i := range allSuites {
+		if allSuites[i].name == si.name {
+			return vlib.N(quick[i], quick[i]*mult)
+		}
+	}
+	return vlib.N(quick[0], quick[0]*mult)
 }
 
 func mustBig(s string) *big.Int {
@@ -71,6 +82,36 @@ func (si suiteInfo) bytesToBig(b []byte) *big.Int {
 		return vlib.FromLE(b)
 	}
 	return new(big.Int).SetBytes(b)
+}
+
+// residueOfEncoding decodes a scalar encoding with the group's own decoder and returns the
+// residue it stands for. Whether that decoder accepts non-canonical encodings (it does:
+// ristretto255 masks the top three bits and reduces, the NIST groups keep any bytes) is
+// property C09's subject; C16 asks whether a proof that stands for DIFFERENT scalars is
+// refused, so alterations that decode to the same residues are only counted as aliases.
+func (si suiteInfo) residueOfEncoding(b []byte) (*big.Int, bool) {
+	s := si.g.NewScalar()
+	if err := s.UnmarshalBinary(b); err != nil {
+		return nil, false
+	}
+	v := si.bytesToBig(serS(s))
+	return v.Mod(v, si.order), true
+}
+
+// sameProofScalars tells whether two proof encodings (c ‖ s) decode to the same residues.
+func (si suiteInfo) sameProofScalars(a, b []byte) bool {
+	L := si.scalarLen()
+	if len(a) != 2*L || len(b) != 2*L {
+		return false
+	}
+	for _, off := range []int{0, L} {
+		x, ok1 := si.residueOfEncoding(a[off : off+L])
+		y, ok2 := si.residueOfEncoding(b[off : off+L])
+		if !ok1 || !ok2 || x.Cmp(y) != 0 {
+			return false
+		}
+	}
+	return true
 }
 
 func (si suiteInfo) scalarToBig(s group.Scalar) *big.Int { return si.bytesToBig(serS(s)) }
